@@ -136,7 +136,9 @@ func parseMap(dec *msgpack.Decoder, r *bytes.Reader, total int) (*Skeleton, erro
 	if err != nil {
 		return nil, wrapInvalid(err)
 	}
-	skel := &Skeleton{Kind: KindMap, MapFields: make([]MapField, 0, n)}
+	// The declared length is untrusted: never pre-allocate more entries than
+	// there are bytes left (every entry needs at least two).
+	skel := &Skeleton{Kind: KindMap, MapFields: make([]MapField, 0, capHint(n, r.Len()/2))}
 	for i := 0; i < n; i++ {
 		// V1: keys must be msgpack strings.
 		code, err := dec.PeekCode()
@@ -164,7 +166,7 @@ func parseArray(dec *msgpack.Decoder, r *bytes.Reader, total int) (*Skeleton, er
 	if err != nil {
 		return nil, wrapInvalid(err)
 	}
-	skel := &Skeleton{Kind: KindArray, ArrayItems: make([]*Skeleton, 0, n)}
+	skel := &Skeleton{Kind: KindArray, ArrayItems: make([]*Skeleton, 0, capHint(n, r.Len()))}
 	for i := 0; i < n; i++ {
 		val, err := parseNode(dec, r, total)
 		if err != nil {
@@ -173,6 +175,19 @@ func parseArray(dec *msgpack.Decoder, r *bytes.Reader, total int) (*Skeleton, er
 		skel.ArrayItems = append(skel.ArrayItems, val)
 	}
 	return skel, nil
+}
+
+// capHint bounds a declared container length by what the remaining input can
+// possibly hold, so that a hostile 5-byte header (map32 / array32 declaring
+// 2^32-1 entries) cannot trigger a multi-gigabyte allocation.
+func capHint(declared, remaining int) int {
+	if declared < 0 {
+		return 0
+	}
+	if declared > remaining {
+		return remaining
+	}
+	return declared
 }
 
 // leafBytes returns the raw msgpack bytes backing a leaf skeleton: either the
